@@ -47,3 +47,82 @@ Print Assumptions C19_failed_write_no_effect.
 Print Assumptions C19_faults_norotation.
 Print Assumptions C19_lost_only_failed.
 Print Assumptions C19_recovery.
+
+(* ------------------------------------------------------------------ with rotation *)
+(* I/O failures of a rotating FileLogWriter (Numbers naming, size criterion, direct mode, no cleanup, synchronous):
+   proofs in Flw/FaultRotSpec.v (the specification simr and what it implies) and Flw/FaultRotation.v (refinement) *)
+Require Import FL.Base.Bytes FL.Fs.Fs FL.Fs.FsFacts FL.Names.FileSpec FL.Flw.Model FL.Flw.ModelFacts FL.Flw.Run
+  FL.Flw.NumInv FL.Flw.NumRun FL.Flw.NumKill FL.Flw.FaultFacts FL.Flw.FaultRotSpec FL.Flw.FaultRotation.
+Open Scope nat_scope.
+
+(* (1) every fault oracle, every list of records: the directory, the error channel and the rest of the oracle are what
+   the specification simr computes; every operation returns normally *)
+Theorem C19_rot_faults_rotation :
+  forall c m t0 off fl recs, numcfg c (CSize m) -> c_cap c = None ->
+  let r := run (fsys t0 off fl) (OStart c :: List.map OWrite recs) in
+  let '(closed, ocur, errs, rest) := simr (c_append c) m fl recs in
+  fs_wf (wfs (s_w (fst r)))
+  /\ reader_view_opt c (wfs (s_w (fst r))) closed ocur
+  /\ werrs (s_w (fst r)) = errs
+  /\ wfaults (s_w (fst r)) = rest
+  /\ (forall o, In o (snd r) -> exists rot, o = ObsRes 0 rot).
+Proof. exact faults_rotation. Qed.
+
+(* (2) record by record *)
+Theorem C19_rot_lost_only_around_failures :
+  forall c m t0 off fl recs, numcfg c (CSize m) -> c_cap c = None ->
+  let x := fst (run (fsys t0 off fl) (OStart c :: List.map OWrite recs)) in
+  let t := trace (c_append c) m (SInit false) fl recs in
+  exists closed ocur,
+    reader_view_opt c (wfs (s_w x)) closed ocur
+    /\ dir_stream closed ocur = concat (List.map t_kept t)
+    /\ List.map t_rec t = recs
+    /\ werrs (s_w x) = concat (List.map t_errs t)
+    /\ fl = concat (List.map t_used t) ++ wfaults (s_w x)
+    /\ (forall e, In e t -> length (t_errs e) = ntrue (t_used e))
+    /\ (forall e, In e t -> (forall f, In f (t_used e) -> f = false) -> t_errs e = [] /\ t_kept e = t_rec e)
+    /\ (forall e, In e t -> t_kept e <> t_rec e -> In true (t_used e) /\ In EWrite (t_errs e)).
+Proof. exact faults_rotation_trace. Qed.
+
+(* (2), (3) the stream is the concatenation of a subsequence of the records; every missing record is one reported EWrite *)
+Theorem C19_rot_loss_is_reported :
+  forall c m t0 off fl recs, numcfg c (CSize m) -> c_cap c = None ->
+  let x := fst (run (fsys t0 off fl) (OStart c :: List.map OWrite recs)) in
+  exists closed ocur kept,
+    reader_view_opt c (wfs (s_w x)) closed ocur
+    /\ dir_stream closed ocur = concat kept /\ Subseq kept recs
+    /\ length recs = length kept + nlost (werrs (s_w x))
+    /\ nlost (werrs (s_w x)) <= length (werrs (s_w x)).
+Proof. exact faults_rotation_stream. Qed.
+
+(* (4) recovery, on the specification: once the rest of the oracle holds no failure, nothing more is reported, every
+   further record is in the stream, the view follows the fault-free size rule (a pending rotation is carried out first) *)
+Theorem C19_rot_recovery_spec :
+  forall app m fl recs1 recs2,
+  let '(st1, e1, fl1) := simr_st app m (SInit false) fl recs1 in
+  all_false fl1 ->
+  let '(st2, e2, fl2) := simr_st app m (SInit false) fl (recs1 ++ recs2) in
+  e2 = e1 /\ stream st2 = stream st1 ++ concat recs2
+  /\ aview_of st2 = s_run m (aview_of st1) (List.map OWrite recs2)
+  /\ (recs2 <> [] -> exists cl d, st2 = SCur cl d).
+Proof. exact recovery_rotation. Qed.
+
+(* (4) recovery, on the run: with the oracle used up and the writer on rCURRENT the state satisfies the invariant Rel of
+   the fault-free development; all further basic operations behave as without failures *)
+Theorem C19_rot_recovery_run :
+  forall c m t0 off fl recs ops, numcfg c (CSize m) -> c_cap c = None -> Forall basic_op ops ->
+  let x := fst (run (fsys t0 off fl) (OStart c :: List.map OWrite recs)) in
+  let '(st, _, rest) := simr_st (c_append c) m (SInit false) fl recs in
+  rest = [] -> forall cl d, st = SCur cl d ->
+    Rel c (CSize m) x (Some (cl, d))
+    /\ Rel c (CSize m) (fst (run x ops)) (s_run m (Some (cl, d)) ops)
+    /\ (forall i o b, nth_error ops i = Some o -> (o = OWrite b \/ o = OPlain b) ->
+          nth_error (snd (run x ops)) i
+          = Some (ObsRes 0 (m <? N.of_nat (length (cur_of (s_run m (Some (cl, d)) (firstn i ops)))))%N)).
+Proof. exact recovery_rotation_run. Qed.
+
+Print Assumptions C19_rot_faults_rotation.
+Print Assumptions C19_rot_lost_only_around_failures.
+Print Assumptions C19_rot_loss_is_reported.
+Print Assumptions C19_rot_recovery_spec.
+Print Assumptions C19_rot_recovery_run.
